@@ -4,6 +4,7 @@
    abstraction of every tree is the old one with the source renamed to the destination, and the abstract invariant is stable
    under that renaming. *)
 From KDB Require Import Util UtilProofs PropDefs PropFlags PropLink PropLinkBasics PropLinkOps PropLinkMove PropLinkTheorems PropSim PropGrow PropGrowMore.
+From KDB Require PropGrowLazyMore.
 From KDB Require PropAbs PropAbsProofs PropProofs PropCheck.
 Module A := PropAbs.
 Module AP := PropAbsProofs.
@@ -423,6 +424,9 @@ Section MoveCtor.
     - intros b _. apply HB.
   Qed.
 
+  Lemma kill_table_evps w ot : w_evps (fst (kill_table w ot)) = w_evps w /\ length (w_binds (fst (kill_table w ot))) = length (w_binds w).
+  Proof. unfold kill_table. destruct ot as [t|]; [|auto]. destruct (get_table w t) as [tb|]; [|auto]. destruct (t_emitting tb); auto. Qed.
+
   (* ---- move ASSIGNMENT over a destination that no binding reads ---- *)
   Lemma moveassign_shape fuel w dst src w' :
     pinv w -> NOACT w -> NOEMIT w -> (forall b lf, has_leaf w b lf -> lf_tg lf <> Some dst) ->
@@ -436,7 +440,19 @@ Section MoveCtor.
                  match get_bind w b, get_bind w' b with
                  | Some x, Some x' => b_evp x' = b_evp x /\ abs_tree (b_root x') = option_map (aren (rn src dst)) (abs_tree (b_root x))
                  | None, None => True
-                 | _, _ => False end).
+                 | _, _ => False end) /\
+      (* the bindings that survive read and update what they did, with src renamed to dst; the destination's old binding is dead
+         and has left its evaluator's registry; no other registry changed *)
+      (forall b x x', pr_updater d0 <> Some b -> get_bind w b = Some x -> get_bind w' b = Some x' ->
+         b_target x' = option_map (rn src dst) (b_target x) /\ leaves (b_root x') = map (mvl src dst) (leaves (b_root x))) /\
+      match pr_updater d0 with
+      | Some bd => exists x, get_bind w bd = Some x /\ get_bind w' bd = None /\
+                     w_evps w' = match nth_error (w_evps w) (b_evp x) with
+                                 | Some ep => upd (w_evps w) (b_evp x)
+                                                {| ep_registry := filter (fun q => negb (Nat.eqb (fst q) (b_regid x))) (ep_registry ep); ep_next := ep_next ep |}
+                                 | None => w_evps w end
+      | None => w_evps w' = w_evps w end /\
+      length (w_binds w') = length (w_binds w).
   Proof.
     intros Hinv Hna HNE Hnr H. cbn [step1] in H.
     destruct (lookup (w_props w) src) as [s0|] eqn:Hs; [|discriminate H].
@@ -454,12 +470,23 @@ Section MoveCtor.
     destruct (ma_kill fn w dst d0 KChanged _ _ _ Hinv Hd ltac:(discriminate) M1 K2 I) as [_ M2].
     destruct (kill_table w2 (pr_destroyed d0)) as [w3 [ex|]] eqn:K3; [discriminate H|].
     destruct (ma_kill fn w dst d0 KDestroyed _ _ _ Hinv Hd ltac:(discriminate) M2 K3 I) as [_ (I3 & SO3 & NE3 & P3 & B3 & S3 & A3)].
+    assert (E3 : w_evps w3 = w_evps w).
+    { pose proof (kill_table_evps w (pr_about d0)) as [A1 _]. rewrite K1 in A1. pose proof (kill_table_evps w1 (pr_changed d0)) as [A2 _]. rewrite K2 in A2.
+      pose proof (kill_table_evps w2 (pr_destroyed d0)) as [A3' _]. rewrite K3 in A3'. cbn [fst] in *. congruence. }
     (* the destination's updater dies; every other binding is untouched *)
     destruct (match pr_updater d0 with Some b => destroy_binding w3 b | None => ok w3 end) as [w4 [ex|]] eqn:Hu; [discriminate H|].
     assert (Hupd : pinvg none_of (eq dst) none_of (eq dst) (eq dst) (eq dst) w4 /\ SLOTOWN none_of w4 /\ NOEMIT w4 /\ NOTARGET dst w4 /\
               w_props w4 = w_props w /\ (forall t pos ser x, slot_at w4 t pos ser x -> slot_at w t pos ser x) /\
               (forall t, owns w dst KMoved t -> exists sl fr, tview w4 t = Some (sl, fr, true)) /\
-              (forall b, pr_updater d0 <> Some b -> get_bind w4 b = get_bind w b)).
+              (forall b, pr_updater d0 <> Some b -> get_bind w4 b = get_bind w b) /\
+              length (w_binds w4) = length (w_binds w) /\
+              match pr_updater d0 with
+              | Some bd => exists x, get_bind w bd = Some x /\ get_bind w4 bd = None /\
+                             w_evps w4 = match nth_error (w_evps w) (b_evp x) with
+                                         | Some ep => upd (w_evps w) (b_evp x)
+                                                        {| ep_registry := filter (fun q => negb (Nat.eqb (fst q) (b_regid x))) (ep_registry ep); ep_next := ep_next ep |}
+                                         | None => w_evps w end
+              | None => w_evps w4 = w_evps w end).
     { assert (Pd3 : pview w3 dst = Some (psigs_of d0)) by (unfold pview; rewrite P3, Hd; reflexivity).
       assert (G3 : forall b, get_bind w3 b = get_bind w b) by (intros b; unfold get_bind; rewrite B3; reflexivity).
       destruct (pr_updater d0) as [bd|] eqn:Hub.
@@ -467,9 +494,12 @@ Section MoveCtor.
         destruct (destroy_binding_pinvg _ _ _ _ _ _ _ _ _ I3 (fun z => z) Hu) as (J1 & J2 & J3 & J4 & J5 & J6 & J7 & J8 & J9 & J10 & J11).
         destruct (pi_upd _ _ _ _ _ _ _ Hinv _ _ _ Pd Hub (fun z => z)) as (lsb & Eb).
         assert (Eb3 : bview w3 bd = Some (lsb, Some dst)) by (rewrite (bview_binds _ _ B3); exact Eb).
-        split; [|split; [|split; [|split; [|split; [|split; [|split]]]]]].
-        + eapply pinvg_mono; [| | | | | |exact J1]; cbv beta; try (intros x Hx; exact Hx).
-          intros x [Hx|(ls0 & E0)]; [exact Hx|]. rewrite Eb3 in E0. inversion E0; reflexivity.
+        assert (Hbx : exists x, get_bind w bd = Some x) by (unfold bview in Eb; destruct (get_bind w bd) as [x|]; [eauto|discriminate Eb]).
+        destruct Hbx as (x & Hbx). assert (Hbx3 : get_bind w3 bd = Some x) by (rewrite G3; exact Hbx).
+        destruct (PropGrowLazyMore.destroy_shape w3 bd x w4 None Hbx3 Hu) as (Ev4 & _ & Gb4).
+        split; [|split; [|split; [|split; [|split; [|split; [|split; [|split; [|split]]]]]]]].
+        + eapply pinvg_mono; [| | | | | |exact J1]; cbv beta; try (intros z Hz; exact Hz).
+          intros z [Hz|(ls0 & E0)]; [exact Hz|]. rewrite Eb3 in E0. inversion E0; reflexivity.
         + intros t pos ser b l lf q k Hsl Hl Hid Ho Hq. apply J10 in Hsl.
           assert (Hl3 : has_leaf w3 b lf).
           { destruct Hl as (ls & tg & E & Hi). destruct (Nat.eq_dec b bd) as [->|Hnb]; [congruence|]. rewrite (J3 _ Hnb) in E. exists ls, tg. auto. }
@@ -479,12 +509,19 @@ Section MoveCtor.
         + intros b ls E. destruct (Nat.eq_dec b bd) as [->|Hnb]; [congruence|]. rewrite (J3 _ Hnb) in E.
           destruct (pi_tgt _ _ _ _ _ _ _ I3 _ _ _ E) as (v & Ev & Eu). rewrite Pd3 in Ev. assert (v = psigs_of d0) by congruence. subst v. cbn in Eu. congruence.
         + rewrite J5. exact P3.
-        + intros t pos ser x Hsl. apply S3. apply J10. exact Hsl.
+        + intros t pos ser x1 Hsl. apply S3. apply J10. exact Hsl.
         + intros t Ho. destruct (A3 _ Ho) as (sl & fr & Et). eapply J11; eauto.
         + intros b Hb. rewrite (destroy_binding_get_bind _ _ _ _ Hu b) by congruence. apply G3.
-      - inversion Hu; subst w4. split; [exact I3|]. split; [exact SO3|]. split; [exact NE3|]. split; [|split; [exact P3|split; [exact S3|split; [exact A3|intros b _; apply G3]]]].
+        + pose proof (PropReg.destroy_binding_rmono w3 bd) as (_ & _ & Lm & _). rewrite Hu in Lm. cbn [fst] in Lm.
+          assert (Lle : length (w_binds w4) <= length (w_binds w3)).
+          { unfold destroy_binding in Hu. rewrite Hbx3 in Hu.
+            match type of Hu with unsubscribe_all ?W ?HS = _ => pose proof (unsubscribe_all_binds HS W) as Eb4; rewrite Hu in Eb4; cbn [fst] in Eb4 end.
+            rewrite Eb4. unfold put_bind; cbn [set_binds w_binds]. rewrite upd_length. destruct (nth_error (w_evps w3) (b_evp x)); cbn [set_evps w_binds]; lia. }
+          rewrite <- B3. lia.
+        + exists x. split; [exact Hbx|]. split; [exact Gb4|]. rewrite Ev4, E3. reflexivity.
+      - inversion Hu; subst w4. split; [exact I3|]. split; [exact SO3|]. split; [exact NE3|]. split; [|split; [exact P3|split; [exact S3|split; [exact A3|split; [intros b _; apply G3|split; [rewrite B3; reflexivity|exact E3]]]]]].
         intros b ls E. destruct (pi_tgt _ _ _ _ _ _ _ I3 _ _ _ E) as (v & Ev & Eu). rewrite Pd3 in Ev. assert (v = psigs_of d0) by congruence. subst v. cbn in Eu. congruence. }
-    destruct Hupd as (I4 & SO4 & NE4 & NT4 & P4 & S4 & A4 & G4).
+    destruct Hupd as (I4 & SO4 & NE4 & NT4 & P4 & S4 & A4 & G4 & L4 & EV4).
     set (d' := {| pr_value := pr_value s0; pr_about := pr_about s0; pr_changed := pr_changed s0; pr_destroyed := pr_destroyed s0; pr_moved := pr_moved d0; pr_updater := pr_updater s0 |}) in *.
     set (w5 := set_props w4 (bind_key (bind_key (w_props w4) src (moved_from s0)) dst d')) in *.
     assert (O4 : forall q k t, owns w4 q k t <-> owns w q k t) by (intros; unfold owns, pview; rewrite P4; tauto).
@@ -521,7 +558,11 @@ Section MoveCtor.
     pose proof (SKB_trans _ _ _ SKb SKc) as SKac.
     set (dn := prop_set_sig d' KMoved (pr_moved (moved_from s0))) in *. set (sn := prop_set_sig (moved_from s0) KMoved None) in *.
     exists s0, d0, dn, sn. split; [reflexivity|]. split; [reflexivity|]. split; [exact Hne|]. split; [reflexivity|]. split; [reflexivity|]. split; [reflexivity|]. split; [reflexivity|].
-    split; [|split].
+    assert (Gwc : forall b, get_bind w' b = get_bind wc b) by (intros b; unfold get_bind, w'; cbn [set_props w_binds]; rewrite Bk; reflexivity).
+    assert (Evw : w_evps w' = w_evps w4).
+    { unfold w'; cbn [set_props w_evps]. pose proof (kill_table_evps wc (pr_moved d0)) as [A _]. rewrite K in A. cbn [fst] in A. rewrite A, Evc, Evb.
+      unfold wa, fixtarget. destruct (pr_updater d') as [bu|]; [destruct (get_bind w5 bu)|]; reflexivity. }
+    split; [|split; [|split; [|split; [|split]]]].
     - intros q. unfold w', w5; cbn [set_props w_props]. rewrite !lookup_bind, P4. destruct (Nat.eqb q dst); [reflexivity|]. destruct (Nat.eqb q src); reflexivity.
     - intros t pos ser s1 Hsl. apply S4. change (slot_at wd t pos ser s1) in Hsl. apply Sk in Hsl. destruct Hsl as (sl & fr & al & Et & En).
       exists sl, fr, al. split; [rewrite <- Twa, <- T; exact Et|exact En].
@@ -539,6 +580,27 @@ Section MoveCtor.
       assert (Hl : has_leaf w b lf) by (exists (leaves (b_root x)), (b_target x); split; [unfold bview; rewrite Hx; reflexivity|exact Hi]).
       pose proof (Hnr _ _ Hl) as Hnd. rewrite Etq in Hnd. destruct (Nat.eqb_spec q dst) as [->|_]; [exfalso; apply Hnd; reflexivity|].
       cbn [option_map]. unfold rn. destruct (Nat.eqb q src); reflexivity.
+    - (* targets and leaves of the surviving bindings *)
+      intros b x x' Hb Hx Hx'. rewrite Gwc in Hx'. pose proof (B b) as Bb. unfold bmap, bview in Bb. unfold wa in Bb.
+      assert (G5 : get_bind w5 b = get_bind w b) by (rewrite <- (G4 b Hb); reflexivity).
+      rewrite (fixtarget_get w5 d' dst b), G5, Hx, Hx' in Bb. change (pr_updater d') with (pr_updater s0) in Bb.
+      destruct (opt_eqb Nat.eqb (pr_updater s0) (Some b)) eqn:Eu; inversion Bb as [[El Etg]]; (split; [|reflexivity]).
+      + rewrite Etg. cbn [bind_with_target b_target]. assert (Hub : pr_updater s0 = Some b).
+        { destruct (pr_updater s0) as [bu|]; cbn [opt_eqb] in Eu; [apply Nat.eqb_eq in Eu; congruence|discriminate Eu]. }
+        destruct (pi_upd _ _ _ _ _ _ _ Hinv _ _ _ Ps Hub (fun z => z)) as (ls & Ebw). unfold bview in Ebw. rewrite Hx in Ebw.
+        assert (Et0 : b_target x = Some src) by congruence. rewrite Et0. cbn [option_map]. unfold rn. rewrite Nat.eqb_refl. reflexivity.
+      + rewrite Etg. destruct (b_target x) as [q|] eqn:Et0; [|reflexivity]. cbn [option_map]. unfold rn. destruct (Nat.eqb_spec q src) as [->|]; [|reflexivity]. exfalso.
+        assert (Bv : bview w b = Some (leaves (b_root x), Some src)) by (unfold bview; rewrite Hx, Et0; reflexivity).
+        destruct (pi_tgt _ _ _ _ _ _ _ Hinv _ _ _ Bv) as (vq & Evq & Euq). rewrite Ps in Evq. inversion Evq; subst vq. cbn in Euq.
+        rewrite Euq in Eu. cbn [opt_eqb] in Eu. rewrite Nat.eqb_refl in Eu. discriminate Eu.
+    - (* the registries *)
+      destruct (pr_updater d0) as [bd|] eqn:Hud.
+      + destruct EV4 as (x & Hbx & Gb4 & Ev4). exists x. split; [exact Hbx|]. split; [|rewrite Evw; exact Ev4].
+        rewrite Gwc. pose proof (SKac bd) as Sb. unfold wa in Sb. rewrite (fixtarget_get w5 d' dst bd) in Sb.
+        change (get_bind w5 bd) with (get_bind w4 bd) in Sb. rewrite Gb4 in Sb. destruct (get_bind wc bd); [destruct Sb|reflexivity].
+      + rewrite Evw. exact EV4.
+    - unfold w'; cbn [set_props w_binds]. rewrite Bk, L. unfold wa, fixtarget. rewrite <- L4. destruct (pr_updater d') as [bu|]; [|reflexivity].
+      destruct (get_bind w5 bu); [|reflexivity]. unfold put_bind; cbn [set_binds w_binds]. apply upd_length.
   Qed.
 
   Lemma grow_moveassign fuel w dst src w' :
@@ -547,7 +609,7 @@ Section MoveCtor.
   Proof.
     intros (Hinv & Hna & Hsi) (s & HRel & HInv) HNE Hnr H.
     pose proof (moveassign_pinv fn rtl fuel w dst src w' None Hinv HNE H I) as Hinv'.
-    destruct (moveassign_shape fuel w dst src w' Hinv Hna HNE Hnr H) as (s0 & d0 & dn & sn & Hs & Hd & Hne & Vd & Ud & Vs & Us & PW & Sw & HB).
+    destruct (moveassign_shape fuel w dst src w' Hinv Hna HNE Hnr H) as (s0 & d0 & dn & sn & Hs & Hd & Hne & Vd & Ud & Vs & Us & PW & Sw & HB & _).
     apply (coh_renamed w w' s src dst s0 dn sn); auto.
     intros b Hb. apply HB. apply Hb. exact Hd.
   Qed.
